@@ -102,11 +102,14 @@ def family_F1(quick):
   """Every GFA1 graph on n <= 3 segments, <= 3 links over all unordered end
   pairs (self-links, hairpins, two links between the same two segments on
   different ends), <= 1 containment (ordered pair, contained segment in both
-  orientations), RC:i:7 on every record."""
+  orientations; quick tier, n = 3: forward only), RC:i:7 on every record.
+  Quick tier leaves out the slice n = 3 & 3 links & 1 containment."""
   for n in (1, 2, 3):
     names = ["A", "B", "C"][:n]
     pairs = end_pairs(names)
-    conts = [None] + containments(names)
+    conts = [None] + containments(
+        names, (("+", "+"),) if (quick and n == 3) else
+        (("+", "+"), ("+", "-")))
     for nl in range(0, 4):
       for combo in itertools.combinations(pairs, nl):
         links = [link_line(p, q) for p, q in combo]
@@ -332,6 +335,9 @@ def text_of(g):
   return s.split("\n") if s else []
 
 
+_BEFORE = {}
+
+
 def run_case(c):
   """Returns (problems [(clause, kind, detail)], info dict)."""
   info = {"exc": None, "end": None, "after": None, "skip": None}
@@ -339,7 +345,15 @@ def run_case(c):
   try:
     with guard():
       g = gfapy.Gfa(c["lines"], version=v)
-      before = text_of(g)
+      ck = (v, tuple(c["lines"]))
+      before = _BEFORE.get(ck)
+      if before is None:
+        # written form of the graph before the call: computed once per graph
+        # (every case builds its own fresh Gfa from the same text)
+        before = text_of(g)
+        if len(_BEFORE) > 64:
+          _BEFORE.clear()
+        _BEFORE[ck] = before
   except HarnessTimeout:
     info["skip"] = "timeout-build"
     return [("timeout", "build", "building the graph exceeded the budget")], \
@@ -389,15 +403,16 @@ def run_case(c):
     if k < 0:
       probs += ref.judge_unchanged(before, after, "refused-but-changed")
     elif refusal_expected:
-      probs += ref.judge_rest_untouched(before, after, v, {m},
-                                        {m} | set(c["names"] or ()))
+      existing = set(x.split("\t")[1] for x in before)
+      probs += ref.judge_rest_untouched(
+          before, after, v, {m}, {m} | (set(c["names"] or ()) - existing))
       if not probs:
         p = ref.judge_unchanged(before, after, "refused-not-atomic")
         probs += p
-    elif k >= 2 and after != before:
-      # tell the reader in which state the refusal left the graph
-      probs.append(("raises-half-done", "text", "after the exception the "
-                    "graph differs from the one before the call"))
+    if probs and after != before:
+      # tell the reader in which state the exception left the graph
+      cl, kd, dt = probs[0]
+      probs[0] = (cl, kd, dt + " [the graph is left half multiplied]")
   else:
     if ret is not g:
       probs.append(("return-value", "ret", "multiply did not return the Gfa"))
@@ -468,15 +483,39 @@ def aliasing(g, after):
 # ---------------------------------------------------------------------------
 
 def descriptor(c):
+  """Shape of a case for the dominance order.  Segment names are abstracted
+  (multiplied segment M, the others N1, N2.. in order of appearance; path and
+  edge identifiers P1.., E1..) so that the same failure on differently named
+  graphs is one witness."""
   stripped = set()
   stags, etags = set(), set()
+  ren = {c["m"]: "M"}
+  gfa1 = c["v"] == "gfa1"
   for l in c["lines"]:
     f = l.split("\t")
-    npos = {"S": 2 if c["v"] == "gfa1" else 3, "L": 5, "C": 6, "E": 8,
-            "P": 3}[f[0]]
-    stripped.add(" ".join(f[:1 + npos]))
+    if f[0] == "S":
+      ren.setdefault(f[1], "N{}".format(len(ren)))
+  def rn(x):
+    if x and x[-1] in "+-" and x[:-1] in ren:
+      return ren[x[:-1]] + x[-1]
+    return ren.get(x, x)
+  for l in c["lines"]:
+    f = l.split("\t")
+    npos = {"S": 2 if gfa1 else 3, "L": 5, "C": 6, "E": 8, "P": 3}[f[0]]
+    q = f[:1 + npos]
+    if f[0] == "P":
+      q[1] = "P"
+      q[2] = ",".join(rn(x) for x in q[2].split(","))
+    elif f[0] == "E":
+      q[1] = "*" if q[1] == "*" else "E"
+      q[2], q[3] = rn(q[2]), rn(q[3])
+    else:
+      q = [rn(x) for x in q]
+      if f[0] == "L":
+        q[5] = "*"          # overlaps abstracted (F5 uses 1M / 2M)
+    stripped.add(" ".join(q))
     (stags if f[0] == "S" else etags).update(f[1 + npos:])
-  return (c["v"], c["m"], frozenset(stripped), frozenset(stags),
+  return (c["v"], "M", frozenset(stripped), frozenset(stags),
           frozenset(etags), c["k"], c["dist"], c["nm"], c["arg"])
 
 
@@ -484,7 +523,8 @@ def dominates(a, b):
   """a is at most as complex as b (and could stand in for it as witness)."""
   return (a[0] == b[0] and a[1] == b[1] and a[2] <= b[2] and a[3] <= b[3]
           and a[4] <= b[4] and (a[5] == b[5] or (a[5] == 2 and b[5] == 3))
-          and (a[6] == b[6] or a[6] in (None, "off"))
+          and (a[6] == b[6] or a[6] in (None, "off")
+               or (a[6] in ("L", "R") and b[6] in ("auto", "equal")))
           and (a[7] == b[7] or a[7] == "auto")
           and (a[8] == b[8] or a[8] == "name"))
 
@@ -616,6 +656,7 @@ def run(ctx):
       "paths through the multiplied segment (F3 only): nothing demanded of the "
       "P line",
       "vlevel 1 (default)"]
+  cross = hashseed_start()
   items = []
   counts, skips, per = {}, {}, {}
   ncases = 0
@@ -644,7 +685,7 @@ def run(ctx):
   if skips:
     ctx.cap("cases skipped because the input graph was refused or altered "
             "on construction: {}".format(skips))
-  ctx.extra["hashseed_crosschecks"] = hashseed_crosscheck(ctx)
+  ctx.extra["hashseed_crosschecks"] = hashseed_finish(ctx, cross)
   ctx.bound_completed = {"segments": 3, "links": 3, "containments": 1,
                          "factors": [-1, 3], "tier": ctx.tier}
 
@@ -656,9 +697,10 @@ def run(ctx):
 def slice_cases():
   out = []
   cases = lambda f: [c for u in f(True) for c in expand(u)]
-  out += cases(family_F1)[::37]
-  out += cases(family_F3)[::5]
-  out += cases(family_F4)[::11]
+  out += cases(family_F1)[::211]
+  out += cases(family_F3)[::23]
+  out += cases(family_F4)[::29]
+  out += cases(family_F5)[::13]
   return out
 
 
@@ -670,16 +712,27 @@ def slice_digest():
   return h(acc), len(acc)
 
 
-def hashseed_crosscheck(ctx):
+def hashseed_start():
   from .. import runner
-  res = {}
+  procs = {}
   for seed in ("0", "1", "2"):
     env = dict(os.environ, PYTHONHASHSEED=seed, PYTHONDONTWRITEBYTECODE="1",
                GFAMC_REPO=runner.REPO, PYTHONPATH=runner.REPO)
-    p = subprocess.run([sys.executable, "-m", "gfamc.checks.c15"],
-                       cwd=runner.VERIF, env=env, capture_output=True,
-                       text=True, timeout=900)
-    res[seed] = p.stdout.strip() or ("error: " + p.stderr[-300:])
+    procs[seed] = subprocess.Popen(
+        [sys.executable, "-m", "gfamc.checks.c15"], cwd=runner.VERIF, env=env,
+        stdout=subprocess.PIPE, stderr=subprocess.PIPE, text=True)
+  return procs
+
+
+def hashseed_finish(ctx, procs):
+  res = {}
+  for seed, p in sorted(procs.items()):
+    try:
+      out, err = p.communicate(timeout=900)
+    except subprocess.TimeoutExpired:
+      p.kill()
+      out, err = "", "timeout"
+    res[seed] = out.strip() or ("error: " + err[-300:])
   if len(set(res.values())) != 1:
     ctx.violation(mkviolation(
         "hashseed-dependent", {"kind": "slice", "input": "slice"},
